@@ -117,6 +117,9 @@ type Scn struct {
 	KeepImages bool
 
 	lastTick   int64
+	NoLedger   bool   // worker side: no source bookkeeping
+	Remote     Remote // if set, litestream ops are forwarded to a worker process
+	RemoteDead bool   // the worker died (killed) during an op
 	DistinctMS bool
 	savedDB    []byte
 	savedWAL   []byte
@@ -155,6 +158,60 @@ func New(cfg Config) (*Scn, error) {
 	s.recordLedger()
 	if err := s.lsNew(); err != nil {
 		s.Destroy()
+		return nil, err
+	}
+	return s, nil
+}
+
+// Remote executes litestream-side operations in another process (engine E3).
+type Remote interface {
+	// Do sends one op; returns the outcome string ("ok", "ack", "err:...", "illegal") or an error if the worker died.
+	Do(op string) (string, error)
+}
+
+// NewAppOnly creates a fresh database and application connections but no
+// litestream objects: litestream runs in a worker process (see Attach).
+func NewAppOnly(cfg Config) (*Scn, error) {
+	n := dirSeq.Add(1)
+	dir := filepath.Join(ScratchRoot, fmt.Sprintf("lsmc-%d", os.Getpid()), fmt.Sprintf("b%d", n%61), strconv.FormatInt(n, 10))
+	if err := os.MkdirAll(dir, 0o755); err != nil {
+		return nil, err
+	}
+	s := &Scn{
+		Dir:        dir,
+		DBPath:     filepath.Join(dir, "db"),
+		ReplicaDir: filepath.Join(dir, "replica"),
+		Cfg:        cfg,
+		ledgerSet:  map[string]int{},
+		LedgerImgs: map[string][]byte{},
+	}
+	if err := s.appOpen(true); err != nil {
+		s.Destroy()
+		return nil, err
+	}
+	fd, err := os.Open(s.DBPath)
+	if err != nil {
+		s.Destroy()
+		return nil, err
+	}
+	s.fd = fd
+	s.recordLedger()
+	return s, nil
+}
+
+// Attach builds litestream objects over an existing scenario directory without
+// application connections (used by the worker process of engine E3).
+func Attach(dir string, cfg Config) (*Scn, error) {
+	s := &Scn{
+		Dir:        dir,
+		DBPath:     filepath.Join(dir, "db"),
+		ReplicaDir: filepath.Join(dir, "replica"),
+		Cfg:        cfg,
+		ledgerSet:  map[string]int{},
+		LedgerImgs: map[string][]byte{},
+		NoLedger:   true,
+	}
+	if err := s.lsNew(); err != nil {
 		return nil, err
 	}
 	return s, nil
@@ -437,6 +494,9 @@ func Digest(im *Image, seqRoot uint32) string {
 }
 
 func (s *Scn) recordLedger() {
+	if s.NoLedger || s.fd == nil {
+		return
+	}
 	s.RefreshSeqRoot()
 	im, _, err := s.SourceImage()
 	if err != nil {
